@@ -57,6 +57,9 @@ class PolicySigner(Device):
         self.sizes = sizes
         self.late_max = late_max
         self.compose = compose          # phase name whose requests enumerate every size
+        self.sticky_sizes = ()          # sizes a phase may be asked for in from its first request to its end
+        self.sticky = None
+        self.force_sticky = None        # every part in requests of this size, no choices (long parts)
         self.first = None
         self.recv = {"btc": b"", "receipt": b"", "proof": b""}
         self.chunks = {"btc": [], "receipt": [], "proof": []}
@@ -111,6 +114,10 @@ class PolicySigner(Device):
         name, pop = self.PHASES[self.phase]
         rem = self.lens[name] - len(self.recv[name])
         ctx = self.ctx
+        if rem > 0 and (self.sticky is not None or self.force_sticky is not None):
+            # the whole part in requests of one size (one choice made at the start of the phase)
+            self.requested = min(self.sticky if self.sticky is not None else self.force_sticky, 255)
+            return bytes([0x80, 0x02, pop, self.requested])
         if rem > 0:
             default = min(rem, FW_MAX)
             if self.compose == name:
@@ -124,8 +131,13 @@ class PolicySigner(Device):
                         seen.add(n)
                         opts.append(("ask", n))
                 opts.append(("next",))
+                if not self.chunks[name]:
+                    opts += [("sticky", k) for k in self.sticky_sizes]
             c = ctx.choose(len(opts), "%s:more" % name) if ctx is not None else 0
             o = opts[c]
+            if o[0] == "sticky":
+                self.sticky = o[1]
+                o = ("ask", min(o[1], 255))
             if o[0] == "next":
                 self.early = name
         else:
@@ -155,8 +167,12 @@ class PolicySigner(Device):
             opts = [first] + [k for k in range(1, min(n + 1, 255) + 1) if k != first]
             first = opts[ctx.choose(len(opts), "%s:first" % nname)] if ctx is not None else first
         else:
-            opts = [first] + [k for k in self.sizes if k != first]
+            opts = [first] + [k for k in self.sizes if k != first] + [("sticky", k) for k in self.sticky_sizes]
             first = opts[ctx.choose(len(opts), "%s:first" % nname)] if ctx is not None else first
+        self.sticky = None
+        if isinstance(first, tuple):
+            self.sticky = first[1]
+            first = min(first[1], 255)
         self.requested = first
         return bytes([0x80, 0x02, npop, first])
 
